@@ -1,6 +1,8 @@
 From Coq Require Import ZArith List.
-From NV Require Import Common.Outcome Common.Conv Seq.Index.
+From NV Require Import Common.Outcome Common.Conv Seq.Index Seq.Accessors.
 Require Extraction.
 Require Import ExtrOcamlBasic.
 Extraction "model.ml" conv_anchor index_list slice_list linear_index_isize safe_index cyclic_index
-  stream_index stream_slice sliced_elems set_index_list remove_index_list remove_slice_list.
+  stream_index stream_slice sliced_elems set_index_list remove_index_list remove_slice_list
+  tail_list butlast_list take_list drop_list uncons_builtin unsnoc_builtin uncons_q unsnoc_q only_list
+  tail_stream butlast_stream take_stream drop_stream uncons_stream unsnoc_stream only_stream.
